@@ -164,9 +164,15 @@ def writeGroup (s : St) : File :=
 def onGroupEnded (s : St) (ms : Nat) : St :=
   reset { s with groupExecTime := ms, totalCheckCount := totalAfter s.totalCheckCount s.nodesRev.reverse }
 
+/-- `TestOutput::printTestRun` on this output: `print(const char*)` is collected, `print(size_t)` does nothing,
+    so the numbers are missing -/
+def testRunText (total : Nat) : Bytes :=
+  if total > 1 then lit "Test run " ++ lit " of " ++ lit "\n" else []
+
 def step (s : St) (e : Ev) : St × List File :=
   if s.crashed then (s, []) else
   match e with
+  | .testRun _ n => ({ s with stdOutput := s.stdOutput ++ testRunText n }, [])
   | .testsStarted => (s, [])
   | .groupStarted _ => (s, [])
   | .testStarted t => (onTestStarted s t, [])
